@@ -10,6 +10,9 @@ B  rows emitted by TLC with the outcome the specification computes are executed 
    counts probes, recorded detector announcements, httptest peer endpoint that counts and decodes shared registrations):
    quick = every admitted row and all single-condition neighbours (39 200 rows) + 20 000 seeded random rows;
    thorough = 400 000 seeded random rows in addition.
+P  the liveness probe itself (spec/Probe: every reaction - SYN-ACK, RST, ICMP / routing error - is an answer, only silence passes) with REAL
+   sockets: the station's default tester and complete registrations pinned to loopback endpoints that accept, refuse, are unreachable
+   or stay silent (a listener with a full accept queue).
 C  "passed on to peer stations at most once per client registration" under real concurrency: 8 workers ingest one detector
    registration at the same instant (250 / 1 500 rounds, no gates); probes, shares and announcements must be exactly one.
 """
@@ -87,6 +90,33 @@ def run(ctx):
             ctx.violation("admission:concurrent-duplicates:%s" % x["prop"], "concurrent deliveries of one registration: %s" % x["detail"], x)
         elif x.get("kind") == "summary":
             ctx.stage("C", duplicate_burst={k: v for k, v in x.items() if k != "kind"})
+    # ---- P: the liveness probe itself, with real sockets (spec/Probe): the verdict Admission.tla takes as an input
+    pdir = ctx.spec_copy("Probe")
+    rp = ctx.tlc(pdir, "Probe.tla", "MC_Probe.cfg", timeout=120, workers=2)
+    ctx.require_design_ok(rp, "Probe")
+    rpb = ctx.tlc(pdir, "Probe.tla", "MC_Probe_broken.cfg", timeout=120, workers=2, count=False)
+    if rpb["inv"] not in ("AdmittedOnlyIfSilent", "RefusalIsAnAnswer"):
+        raise vlib.InfraError("the probe instance that takes a refused dial for silence should violate, got %s" % rpb["inv"])
+    gpr = ctx.tlc(pdir, "Gen_Probe.tla", "Gen_Probe.cfg", timeout=120, workers=1, count=False)
+    pp = os.path.join(ctx.scratch, "probe.ndjson")
+    rpr = ctx.go_test(PKG, FILES, "lib", "^TestVerifAdmissionProbe$", env={"VERIF_IN": gpr["beh_file"], "VERIF_OUT": pp}, timeout=300)
+    prow = ctx.read_results(pp)
+    psum = [x for x in prow if x.get("kind") == "summary"]
+    if not psum:
+        raise vlib.InfraError("probe driver did not finish:\n" + rpr["out"][-3000:])
+    for x in prow:
+        if x.get("kind") == "mismatch":
+            r = x["row"]
+            ctx.violation("probe:%s:%s:prescanned=%s" % (x["level"], r["net"], r["prescanned"]),
+                          "real liveness probe / ingest disagrees with Probe.tla for a phantom that %s (pre-scanned %s): want live=%s admitted=%s, got %s"
+                          % (r["net"], r["prescanned"], r["live"], r["admitted"], {k: v for k, v in x.items() if k not in ("kind", "row")}), x)
+        elif x.get("kind") == "unstable":
+            raise vlib.InfraError("probe endpoint changed its behaviour during the row: %s" % x)
+    missing = {"accepts", "refuses", "silent"} - set(psum[0]["covered"])
+    if missing:
+        raise vlib.InfraError("probe endpoints not available on this host: %s (%s)" % (sorted(missing), [x for x in prow if x.get("kind") == "skipped"][:3]))
+    ctx.stage("P", rows=psum[0]["rows"], endpoint_kinds=sorted(psum[0]["covered"]),
+              nonvacuity="instance treating a failed dial as silence violates %s" % rpb["inv"])
     ctx.cov["evaluations"] = summ[0]["rows"]
     ctx.cov["distinct_nontrivial"] = summ[0]["rows"]
     ctx.cov["traces_validated_against_impl"] = 0
